@@ -297,3 +297,48 @@ Ltac fold_calls :=
   | |- context [eval (env_of_c ?vs O) ?g] => change (eval (env_of_c vs O) g) with (call g vs)
   end.
 Ltac rx := repeat (progress (rexpr_cbn; unfold pow2; fold_lits)); fold_calls.
+
+(* decidable equality on values/results: used by the correspondence check to compare what the
+   evaluator computes with what the real code returned *)
+Fixpoint list_N_eqb (a b : list N) : bool :=
+  match a, b with
+  | [], [] => true
+  | x :: s, y :: t => N.eqb x y && list_N_eqb s t
+  | _, _ => false
+  end.
+
+Fixpoint value_eqb (a b : value) {struct a} : bool :=
+  let fix vl (l1 l2 : list value) {struct l1} : bool :=
+    match l1, l2 with
+    | [], [] => true
+    | x :: s, y :: t => value_eqb x y && vl s t
+    | _, _ => false
+    end in
+  match a, b with
+  | VInt x, VInt y => N.eqb x y
+  | VBool x, VBool y => Bool.eqb x y
+  | VOpt None, VOpt None => true
+  | VOpt (Some x), VOpt (Some y) => value_eqb x y
+  | VTup l1, VTup l2 => vl l1 l2
+  | VRes (inl x), VRes (inl y) => value_eqb x y
+  | VRes (inr x), VRes (inr y) => true      (* error codes are site numbers: not compared *)
+  | VList l1, VList l2 => list_N_eqb l1 l2
+  | _, _ => false
+  end.
+
+Definition res_eqb (a b : res) : bool :=
+  match a, b with
+  | Ret x, Ret y => value_eqb x y
+  | Panic, Panic => true
+  | Overflow, Overflow => true
+  | Overflow, Panic => true     (* a debug build turns overflow into a panic *)
+  | TypeErr, TypeErr => true
+  | _, _ => false
+  end.
+
+(* indices of the cases on which evaluator and implementation disagree *)
+Fixpoint mismatches (k : N) (l : list (res * res)) : list N :=
+  match l with
+  | [] => []
+  | (a, b) :: t => if res_eqb a b then mismatches (k + 1) t else k :: mismatches (k + 1) t
+  end.
